@@ -139,9 +139,11 @@ func (c *Curve) Add(p, q Point) Point {
 	return c.chord(l, p, q)
 }
 
-// Mul is plain MSB-first double-and-add on the integer k >= 0 (no reduction by n:
-// the group law does not need it, and on an invalid curve n is not the order).
-func (c *Curve) Mul(p Point, k *big.Int) Point {
+// MulAffine is plain MSB-first double-and-add on the integer k >= 0 in affine coordinates
+// (no reduction by n: the group law does not need it, and on an invalid curve n is not
+// the order). It is the definitional version; Mul below is the fast one, cross-checked
+// against this in TestRefSelf.
+func (c *Curve) MulAffine(p Point, k *big.Int) Point {
 	r := Infinity()
 	for i := k.BitLen() - 1; i >= 0; i-- {
 		r = c.Double(r)
@@ -150,6 +152,101 @@ func (c *Curve) Mul(p Point, k *big.Int) Point {
 		}
 	}
 	return r
+}
+
+type jac struct{ x, y, z *big.Int }
+
+func (c *Curve) jdouble(p jac) jac {
+	if p.z.Sign() == 0 || p.y.Sign() == 0 {
+		return jac{big.NewInt(1), big.NewInt(1), new(big.Int)}
+	}
+	P := c.P
+	yy := new(big.Int).Mul(p.y, p.y)
+	yy.Mod(yy, P)
+	s := new(big.Int).Mul(p.x, yy)
+	s.Lsh(s, 2).Mod(s, P)
+	zz := new(big.Int).Mul(p.z, p.z)
+	zz.Mod(zz, P)
+	m := new(big.Int).Mul(p.x, p.x)
+	m.Mul(m, big.NewInt(3))
+	az4 := new(big.Int).Mul(zz, zz)
+	az4.Mod(az4, P).Mul(az4, c.A)
+	m.Add(m, az4).Mod(m, P)
+	x3 := new(big.Int).Mul(m, m)
+	x3.Sub(x3, new(big.Int).Lsh(s, 1)).Mod(x3, P)
+	y3 := new(big.Int).Sub(s, x3)
+	y3.Mul(y3, m)
+	y4 := new(big.Int).Mul(yy, yy)
+	y4.Lsh(y4, 3)
+	y3.Sub(y3, y4).Mod(y3, P)
+	z3 := new(big.Int).Mul(p.y, p.z)
+	z3.Lsh(z3, 1).Mod(z3, P)
+	return jac{x3, y3, z3}
+}
+
+// jaddAffine adds the affine point q (finite) to p.
+func (c *Curve) jaddAffine(p jac, q Point) jac {
+	if p.z.Sign() == 0 {
+		return jac{new(big.Int).Set(q.X), new(big.Int).Set(q.Y), big.NewInt(1)}
+	}
+	P := c.P
+	zz := new(big.Int).Mul(p.z, p.z)
+	zz.Mod(zz, P)
+	u2 := new(big.Int).Mul(q.X, zz)
+	u2.Mod(u2, P)
+	s2 := new(big.Int).Mul(q.Y, zz)
+	s2.Mul(s2, p.z).Mod(s2, P)
+	h := new(big.Int).Sub(u2, p.x)
+	h.Mod(h, P)
+	r := new(big.Int).Sub(s2, p.y)
+	r.Mod(r, P)
+	if h.Sign() == 0 {
+		if r.Sign() == 0 {
+			return c.jdouble(p)
+		}
+		return jac{big.NewInt(1), big.NewInt(1), new(big.Int)}
+	}
+	hh := new(big.Int).Mul(h, h)
+	hh.Mod(hh, P)
+	hhh := new(big.Int).Mul(hh, h)
+	hhh.Mod(hhh, P)
+	v := new(big.Int).Mul(p.x, hh)
+	v.Mod(v, P)
+	x3 := new(big.Int).Mul(r, r)
+	x3.Sub(x3, hhh).Sub(x3, new(big.Int).Lsh(v, 1)).Mod(x3, P)
+	y3 := new(big.Int).Sub(v, x3)
+	y3.Mul(y3, r)
+	t := new(big.Int).Mul(p.y, hhh)
+	y3.Sub(y3, t).Mod(y3, P)
+	z3 := new(big.Int).Mul(p.z, h)
+	z3.Mod(z3, P)
+	return jac{x3, y3, z3}
+}
+
+// Mul computes [k]p (k >= 0, not reduced) with Jacobian double-and-add and one final
+// inversion; same definition as MulAffine, ~20x faster.
+func (c *Curve) Mul(p Point, k *big.Int) Point {
+	if p.Inf || k.Sign() == 0 {
+		return Infinity()
+	}
+	r := jac{big.NewInt(1), big.NewInt(1), new(big.Int)}
+	for i := k.BitLen() - 1; i >= 0; i-- {
+		r = c.jdouble(r)
+		if k.Bit(i) == 1 {
+			r = c.jaddAffine(r, p)
+		}
+	}
+	if r.z.Sign() == 0 {
+		return Infinity()
+	}
+	zi := new(big.Int).ModInverse(r.z, c.P)
+	zi2 := new(big.Int).Mul(zi, zi)
+	zi2.Mod(zi2, c.P)
+	x := new(big.Int).Mul(r.x, zi2)
+	x.Mod(x, c.P)
+	y := new(big.Int).Mul(r.y, zi2)
+	y.Mul(y, zi).Mod(y, c.P)
+	return Point{X: x, Y: y}
 }
 
 func (c *Curve) BaseMul(k *big.Int) Point { return c.Mul(c.G(), k) }
